@@ -5,7 +5,7 @@ namespace PlasVerif.Driver.C13
 open PlasVerif.Driver PlasVerif.Model.Render PlasVerif.Spec.Split
 
 /-! request:  `split <gen> <split-level> <template code points,comma separated or -> <n tops> <tree>…`
-    tree ::= `T <m>` | `E <tag> <level> <foot 0/1> <id|-> <title|-|=> <ref|-|=> <name> <n kids> <tree>…`
+    tree ::= `T <m>` | `E <tag> <level> <0 | 1 = footnote | 2 = node with a unicode equivalent (`str`) | 3 = both> <id|-> <title|-|=> <ref|-|=> <name> <n kids> <tree>…`
     (`-` = absent, `=` = empty string; level `D` = DOCUMENT_LEVEL);  gen ::= `cnt` | `fail<k>` -/
 
 def optStr : String → Option String
@@ -19,8 +19,9 @@ def parseTree : Nat → List String → Option (Tree × List String)
   | _ + 1, "T" :: m :: r => do pure (.text (← m.toNat?), r)
   | f + 1, "E" :: tag :: lvl :: ft :: id :: title :: ref :: name :: n :: r => do
     let (ks, r) ← parseTrees f (← n.toNat?) r
-    pure (.elem { tag := ← tag.toNat?, level := ← level? lvl, foot := ft == "1", id := optStr id,
-                  title := optStr title, ref := optStr ref, name := if name == "=" then "" else name } ks, r)
+    let a : Attrs := { tag := ← tag.toNat?, level := ← level? lvl, foot := ft == "1" || ft == "3", id := optStr id,
+                       title := optStr title, ref := optStr ref, name := if name == "=" then "" else name }
+    pure (if ft == "2" || ft == "3" then .uni a ks else .elem a ks, r)
   | _, _ => none
 def parseTrees : Nat → Nat → List String → Option (List Tree × List String)
   | _, 0, r => some ([], r)
@@ -32,7 +33,7 @@ def parseTrees : Nat → Nat → List String → Option (List Tree × List Strin
 end
 
 def tokStr : Tok → String
-  | .txt m => s!"t{m}" | .op t => s!"o{t}" | .cl t => s!"c{t}" | .mark t => s!"m{t}"
+  | .txt m => s!"t{m}" | .op t => s!"o{t}" | .cl t => s!"c{t}" | .mark t => s!"m{t}" | .uni t => s!"u{t}"
   | .lop t => s!"L{t}" | .lcl t => s!"l{t}" | .fop t => s!"F{t}" | .fcl t => s!"f{t}"
 
 def insertFile (f : File String) : List (File String) → List (File String)
@@ -54,6 +55,7 @@ mutual
 def reqs (lvl : Int) : Tree → List Req
   | .text _ => []
   | .elem a ks => if a.level > lvl then reqsL lvl ks else req a :: reqsL lvl ks
+  | .uni a ks => if a.level > lvl then reqsL lvl ks else req a :: reqsL lvl ks
 def reqsL (lvl : Int) : List Tree → List Req
   | [] => []
   | t :: ts => reqs lvl t ++ reqsL lvl ts
@@ -71,6 +73,7 @@ def template? (s : String) : Option (List Char) :=
 def isDocTree : Tree → Bool
   | .text _ => false
   | .elem a _ => a.level == DOCUMENT_LEVEL
+  | .uni a _ => a.level == DOCUMENT_LEVEL
 
 /-- the split stream's configuration: default forbidden characters, substitute `-`, extension `.html` -/
 def realCfg : PlasVerif.Model.Filenames.Config :=
